@@ -48,7 +48,7 @@ Proof.
   split. { unfold arena_wf, ex_before. cbn [bm_arena]. discriminate. }
   split. { unfold segs_small, mem, get_seg, ex_before. cbn [bm_segs]. intros i.
            destruct (Z.to_nat i) as [|[|[|n]]]; cbn; unfold maxSegmentSize; lia. }
-  split. { unfold raw_ok, ArithFacts.word64. split; [lia|]. split; reflexivity. }
+  split. { unfold raw_ok, ArithFacts.word64. split; [lia|]. split; [reflexivity|]. split; [reflexivity|lia]. }
   repeat split; vm_compute; first [reflexivity | discriminate].
 Qed.
 
